@@ -246,6 +246,7 @@ class SaverWalker(object):
                     rec['dynamic'] = True
                 else:
                     rec['keys'][ks] = self.info.depends_on_test(v, use_bp)
+                    self.value_info(rec, ks, v, use_bp)
             return [rec]
         if isinstance(expr, ast.Call) and isinstance(expr.func, ast.Name) and expr.func.id in ('dict', 'OrderedDict') and expr.func.id not in self.info.bind:
             rec = {'keys': {}, 'dynamic': bool(expr.args)}
@@ -254,6 +255,7 @@ class SaverWalker(object):
                     rec['dynamic'] = True
                 else:
                     rec['keys'][kw.arg] = self.info.depends_on_test(kw.value, use_bp)
+                    self.value_info(rec, kw.arg, kw.value, use_bp)
             return [rec]
         if isinstance(expr, ast.Call) and isinstance(expr.func, ast.Name) and expr.func.id in self.module_funcs and expr.func.id not in self.info.bind \
                 and expr.args and isinstance(expr.args[0], ast.Name) and expr.args[0].id == self.obj:
@@ -263,6 +265,9 @@ class SaverWalker(object):
             res = analyse_saver(callee, self.module_funcs, self.cache, self.stack)
             return [{'keys': dict(p['keys']), 'dynamic': p['dynamic']} for p in res]
         return None
+
+    def value_info(self, rec, key, expr, bp):
+        """hook: what else is recorded about the value stored under a key (nothing for the registered functions)"""
 
     def run(self):
         self.walk(self.fn.body, {}, self.finish_fall, None)
@@ -310,10 +315,13 @@ class SaverWalker(object):
             name = s.targets[0].value.id
             k = const_str(s.targets[0].slice)
             r = {'keys': dict(recs[name]['keys']), 'dynamic': recs[name]['dynamic']}
+            if 'chains' in recs[name]:
+                r['chains'] = dict(recs[name]['chains'])
             if k is None:
                 r['dynamic'] = True
             else:
                 r['keys'][k] = self.info.depends_on_test(s.value, s._bp)
+                self.value_info(r, k, s.value, s._bp)
             nr = dict(recs)
             nr[name] = r
             return nxt(nr)
@@ -644,6 +652,405 @@ def analyse_loader(f, cls, module_funcs, cache, stack=()):
     return out
 
 
+# ------------------------------------------------------------------ __gluestate__ / __setgluestate__ method pairs
+# allowed between an attribute of the instance and context.id / context.do (nothing is lost): attribute access, np.asarray(x),
+# x.tolist(), x.items(), list / tuple / dict / str / float / int (x), list / tuple / dict displays, comprehensions and map(context.id, x)
+# without a filter.  Anything else is recorded under its name as a "lossy-or-unknown transformation".
+LOSSLESS_FUNCS = ('list', 'tuple', 'dict', 'str', 'float', 'int')
+LOSSLESS_METHODS = ('tolist', 'items')
+
+
+def unparse(n):
+    try:
+        return ast.unparse(n)
+    except Exception:
+        return type(n).__name__
+
+
+class MethodSaverWalker(SaverWalker):
+    """SaverWalker over a __gluestate__ method, recording per key the sources (attributes of self) and the transformations"""
+
+    def __init__(self, owner, pkgdir, cache, stack=()):
+        f = owner.__dict__['__gluestate__']
+        self.owner = owner
+        self.pkgdir = pkgdir
+        SaverWalker.__init__(self, f, {}, cache, stack)
+        self.stack = stack + (qn(owner),)
+
+    def fail(self, node, why):
+        raise Uninterpretable('%s.__gluestate__ line %d: %s' % (qn(self.owner), getattr(node, 'lineno', 0), why))
+
+    def is_ctx_call(self, n):
+        return isinstance(n, ast.Attribute) and isinstance(n.value, ast.Name) and n.value.id == self.ctx and n.attr in ('id', 'do')
+
+    def self_path(self, n):
+        """'a.b' for self.a.b, else None"""
+        parts = []
+        while isinstance(n, ast.Attribute):
+            parts.append(n.attr)
+            n = n.value
+        if isinstance(n, ast.Name) and n.id == self.obj and parts:
+            return '.'.join(reversed(parts))
+        return None
+
+    def chain(self, e, bp, env, src, lossy, seen):
+        def L(name):
+            if name not in lossy:
+                lossy.append(name)
+
+        def S(name):
+            if name not in src:
+                src.append(name)
+        rec = lambda x, env2=env: self.chain(x, bp, env2, src, lossy, seen)
+        if isinstance(e, ast.Constant):
+            return
+        if isinstance(e, ast.Name):
+            if e.id in env:
+                return
+            if e.id == self.obj:
+                return S('self')
+            if e.id in self.info.bind:
+                if e.id in seen:
+                    return
+                binds = self.info.bind[e.id]
+                if len(binds) != 1 or binds[0][1] is None or not is_prefix(binds[0][0], bp) or self.info.mut.get(e.id):
+                    return L('local:' + e.id)
+                return self.chain(binds[0][1], bp, env, src, lossy, seen + (e.id,))
+            return L('name:' + e.id)
+        if isinstance(e, ast.Attribute):
+            sp = self.self_path(e)
+            if sp is not None:
+                return S(sp)
+            return rec(e.value)
+        if isinstance(e, ast.Call):
+            f = e.func
+            plain = len(e.args) == 1 and not e.keywords and not isinstance(e.args[0], ast.Starred)
+            if self.is_ctx_call(f) and plain:
+                return rec(e.args[0])
+            if isinstance(f, ast.Attribute) and isinstance(f.value, ast.Name) and f.value.id in ('np', 'numpy') and f.attr == 'asarray' and plain:
+                return rec(e.args[0])
+            if isinstance(f, ast.Attribute) and f.attr in LOSSLESS_METHODS and not e.args and not e.keywords:
+                return rec(f.value)
+            if isinstance(f, ast.Name) and f.id in LOSSLESS_FUNCS and f.id not in self.info.bind and plain:
+                return rec(e.args[0])
+            if isinstance(f, ast.Name) and f.id == 'map' and 'map' not in self.info.bind and len(e.args) == 2 and not e.keywords and self.is_ctx_call(e.args[0]):
+                return rec(e.args[1])
+            if isinstance(f, ast.Attribute) and isinstance(f.value, ast.Name) and f.value.id == self.obj:
+                L('self.%s()' % f.attr)
+            elif isinstance(f, ast.Attribute):
+                L('.%s()' % f.attr if not (isinstance(f.value, ast.Name) and f.value.id not in self.info.bind and f.value.id not in env) else '%s()' % unparse(f))
+                rec(f.value) if not isinstance(f.value, ast.Name) or f.value.id in self.info.bind or f.value.id in env else None
+            else:
+                L('%s()' % unparse(f))
+            for a in e.args:
+                rec(a.value if isinstance(a, ast.Starred) else a)
+            for k in e.keywords:
+                rec(k.value)
+            return
+        if isinstance(e, (ast.ListComp, ast.SetComp, ast.GeneratorExp, ast.DictComp)):
+            env2 = set(env)
+            for g in e.generators:
+                self.chain(g.iter, bp, frozenset(env2), src, lossy, seen)
+                if g.ifs:
+                    L('filter')
+                for t in ast.walk(g.target):
+                    if isinstance(t, ast.Name):
+                        env2.add(t.id)
+            env2 = frozenset(env2)
+            if isinstance(e, ast.DictComp):
+                rec(e.key, env2)
+                rec(e.value, env2)
+            else:
+                rec(e.elt, env2)
+            return
+        if isinstance(e, (ast.List, ast.Tuple)):
+            for x in e.elts:
+                rec(x.value if isinstance(x, ast.Starred) else x)
+            return
+        if isinstance(e, ast.Dict):
+            for k, v in zip(e.keys, e.values):
+                if k is None or const_str(k) is None:
+                    L('computed-key')
+                rec(v)
+            return
+        if isinstance(e, ast.BinOp):
+            L('arith:' + type(e.op).__name__)
+        elif isinstance(e, ast.UnaryOp):
+            L('arith:' + type(e.op).__name__)
+        elif isinstance(e, ast.Subscript):
+            L('slice' if isinstance(e.slice, ast.Slice) else 'index')
+        elif isinstance(e, (ast.Compare, ast.BoolOp, ast.IfExp)):
+            L('test')
+        else:
+            L('expr:' + type(e).__name__)
+        for c in ast.iter_child_nodes(e):
+            if isinstance(c, ast.expr):
+                rec(c)
+
+    def value_info(self, rec, key, expr, bp):
+        src, lossy = [], []
+        self.chain(expr, bp, frozenset(), src, lossy, ())
+        if self.info.depends_on_test(expr, bp) and 'test' not in lossy and not any(x.startswith('local:') for x in lossy):
+            lossy.append('test')
+        if not src and not lossy:
+            lossy.append('no-instance-state')
+        rec.setdefault('chains', {})[key] = (sorted(src), lossy)
+
+    def record_exprs(self, expr, use_bp):
+        # super(X, self).__gluestate__(context) / super().__gluestate__(context): the record of the next provider along the MRO
+        if isinstance(expr, ast.Call) and isinstance(expr.func, ast.Attribute) and expr.func.attr == '__gluestate__' \
+                and isinstance(expr.func.value, ast.Call) and isinstance(expr.func.value.func, ast.Name) and expr.func.value.func.id == 'super':
+            nxt = None
+            for k in self.owner.__mro__[1:]:
+                if '__gluestate__' in k.__dict__:
+                    nxt = k
+                    break
+            if nxt is None:
+                return []       # no class further along the MRO defines it: AttributeError, a loud failure at save time (no record)
+            if not in_package(nxt, self.pkgdir):
+                self.fail(expr, 'super().__gluestate__ does not resolve to a class of the package')
+            if qn(nxt) in self.stack:
+                self.fail(expr, 'recursive __gluestate__')
+            res = analyse_method_saver(nxt, self.pkgdir, self.cache, self.stack)
+            return [{'keys': dict(p['keys']), 'dynamic': p['dynamic'], 'chains': dict(p['chains'])} for p in res]
+        rs = SaverWalker.record_exprs(self, expr, use_bp)
+        if rs is not None:
+            for r in rs:
+                r.setdefault('chains', {})
+        return rs
+
+
+def analyse_method_saver(owner, pkgdir, cache, stack=()):
+    if owner in cache:
+        return cache[owner]
+    w = MethodSaverWalker(owner, pkgdir, cache, stack)
+    out = []
+    for p in w.run():
+        ch = p.get('chains', {})
+        for k in p['keys']:
+            if k not in ch:
+                raise Uninterpretable('%s.__gluestate__: no value recorded for key %r' % (qn(owner), k))
+        c = {'keys': dict(sorted(p['keys'].items())), 'dynamic': p['dynamic'], 'chains': {k: ch[k] for k in sorted(p['keys'])}}
+        if c not in out:
+            out.append(c)
+    cache[owner] = out
+    return out
+
+
+# on the way back: allowed between rec['k'] and the constructor argument / attribute it ends in
+LOADER_LOSSLESS_FUNCS = ('list', 'tuple', 'dict')
+
+
+class MethodLoaderScan(object):
+    """per key read from the record by a __setgluestate__ method: the transformations applied to the stored value until it ends as a
+    constructor argument / an attribute of the new object (following locals and comprehension variables)"""
+
+    def __init__(self, owner):
+        self.owner = owner
+        f = owner.__dict__['__setgluestate__']
+        f = getattr(f, '__func__', f)
+        self.fn = fn_node(f)
+        a = self.fn.args.args
+        if len(a) < 3:
+            raise Uninterpretable('%s.__setgluestate__ takes fewer than 3 arguments' % qn(owner))
+        self.cls, self.rec, self.ctx = a[0].arg, a[1].arg, a[2].arg
+        self.parent = {}
+        for n in ast.walk(self.fn):
+            for c in ast.iter_child_nodes(n):
+                self.parent[c] = n
+        self.reads = {}      # key -> [transformation names]
+        self.ends = {}       # key -> [where the value ends]
+        self.dynamic = False
+
+    def note(self, key, name):
+        if name not in self.reads[key]:
+            self.reads[key].append(name)
+
+    def uses_of(self, name, scope):
+        return [n for n in ast.walk(scope) if isinstance(n, ast.Name) and n.id == name and isinstance(n.ctx, ast.Load)]
+
+    def climb(self, n, key, seen):
+        while True:
+            p = self.parent.get(n)
+            if p is None or isinstance(p, (ast.Return, ast.Expr, ast.FunctionDef)):
+                return
+            if isinstance(p, ast.keyword) or isinstance(p, ast.Starred):
+                n = p
+                continue
+            if isinstance(p, ast.Call):
+                f = p.func
+                if n is f or (isinstance(f, ast.Attribute) and n is f.value):
+                    return      # handled at the Attribute
+                if isinstance(f, ast.Attribute) and isinstance(f.value, ast.Name) and f.value.id == self.ctx and f.attr == 'object':
+                    n = p
+                    continue
+                if isinstance(f, ast.Attribute) and isinstance(f.value, ast.Name) and f.value.id in ('np', 'numpy') and f.attr == 'asarray' and len(p.args) == 1 and not p.keywords:
+                    n = p
+                    continue
+                if isinstance(f, ast.Name) and f.id in LOADER_LOSSLESS_FUNCS and len(p.args) == 1 and not p.keywords:
+                    n = p
+                    continue
+                if isinstance(f, ast.Name) and (f.id == self.cls or f.id == self.owner.__name__ or f.id in [k.__name__ for k in self.owner.__mro__]):
+                    return      # a constructor argument
+                self.note(key, '%s()' % unparse(f))
+                n = p
+                continue
+            if isinstance(p, ast.Attribute):
+                gp = self.parent.get(p)
+                if isinstance(gp, ast.Call) and gp.func is p:
+                    if p.attr in ('items',) and not gp.args:
+                        n = gp
+                        continue
+                    if p.attr == 'get' and isinstance(n, ast.Name) and n.id == self.rec:
+                        return
+                    self.note(key, '.%s()' % p.attr)
+                    n = gp
+                    continue
+                self.note(key, '.%s' % p.attr)
+                n = p
+                continue
+            if isinstance(p, ast.Subscript):
+                if n is p.value:
+                    self.note(key, 'slice' if isinstance(p.slice, ast.Slice) else 'index')
+                    n = p
+                    continue
+                self.note(key, 'used-as-index')
+                return
+            if isinstance(p, ast.comprehension):
+                if n is p.iter:
+                    comp = self.parent.get(p)
+                    for t in ast.walk(p.target):
+                        if isinstance(t, ast.Name):
+                            for u in self.uses_of(t.id, comp):
+                                self.climb(u, key, seen)
+                    return
+                self.note(key, 'filter')
+                return
+            if isinstance(p, (ast.ListComp, ast.SetComp, ast.GeneratorExp, ast.DictComp, ast.List, ast.Tuple, ast.Dict)):
+                n = p
+                continue
+            if isinstance(p, ast.IfExp):
+                if n is p.test:
+                    self.note(key, 'test')
+                    return
+                n = p
+                continue
+            if isinstance(p, (ast.Compare, ast.BoolOp, ast.If, ast.While)):
+                self.note(key, 'test')
+                return
+            if isinstance(p, ast.Assign):
+                for t in p.targets:
+                    if isinstance(t, ast.Name):
+                        if t.id in seen:
+                            continue
+                        for u in self.uses_of(t.id, self.fn):
+                            self.climb(u, key, seen + (t.id,))
+                    elif isinstance(t, (ast.Tuple, ast.List)):
+                        self.note(key, 'unpacked')
+                return
+            if isinstance(p, (ast.BinOp, ast.UnaryOp)):
+                self.note(key, 'arith:' + type(p.op).__name__)
+                n = p
+                continue
+            self.note(key, 'expr:' + type(p).__name__)
+            return
+
+    def run(self):
+        for n in ast.walk(self.fn):
+            key = None
+            if isinstance(n, ast.Subscript) and isinstance(n.value, ast.Name) and n.value.id == self.rec and isinstance(n.ctx, ast.Load):
+                key = const_str(n.slice)
+                if key is None:
+                    self.dynamic = True
+                    continue
+            elif isinstance(n, ast.Call) and isinstance(n.func, ast.Attribute) and n.func.attr == 'get' and isinstance(n.func.value, ast.Name) \
+                    and n.func.value.id == self.rec and n.args:
+                key = const_str(n.args[0])
+                if key is None:
+                    self.dynamic = True
+                    continue
+            if key is not None:
+                self.reads.setdefault(key, [])
+                self.climb(n, key, ())
+        return {'reads': {k: self.reads[k] for k in sorted(self.reads)}, 'dynamic': self.dynamic}
+
+
+def collect_methods(T):
+    """the __gluestate__ / __setgluestate__ providers of every class of the class table (classes of the package only)"""
+    pkgdir = os.path.join(T['repo'], 'glue')
+    gs_owners, sgs_owners, pairs = [], [], []
+    for row in T['classes']:
+        c = row['cls']
+        g = gen_tables.provider(c, '__gluestate__')
+        sg = gen_tables.provider(c, '__setgluestate__')
+        if g is not None and in_package(g, pkgdir) and g not in gs_owners:
+            gs_owners.append(g)
+        if sg is not None and in_package(sg, pkgdir) and sg not in sgs_owners:
+            sgs_owners.append(sg)
+        if row['in_pkg'] and g is not None and sg is not None and in_package(g, pkgdir) and in_package(sg, pkgdir):
+            if (qn(g), qn(sg)) not in pairs:
+                pairs.append((qn(g), qn(sg)))
+    cache = {}
+    savers = [{'cls': qn(o), 'paths': analyse_method_saver(o, pkgdir, cache)} for o in sorted(gs_owners, key=qn)]
+    loaders = [dict(cls=qn(o), **MethodLoaderScan(o).run()) for o in sorted(sgs_owners, key=qn)]
+    return {'savers': savers, 'loaders': loaders, 'pairs': sorted(pairs)}
+
+
+def cs(s):
+    return '"%s"' % s.replace('"', '""')
+
+
+def sl(xs):
+    return '[' + '; '.join(cs(x) for x in xs) + ']'
+
+
+def render_methods(M):
+    out = []
+    out.append('(* GENERATED by tools/gen/gen_codecs.py from the working tree of the package -- do not edit.\n'
+               '   __gluestate__ / __setgluestate__ method pairs of the classes of the class table: per saver path and key, the attributes of\n'
+               '   the instance the stored value is computed from and the transformations on the way that are not on the lossless list\n'
+               '   (attribute access, np.asarray, .tolist(), .items(), list / tuple / dict / str / float / int, displays, comprehensions and map\n'
+               '   without filter, context.id / context.do); per loader and key, the transformations between rec[key] and the constructor\n'
+               '   argument / attribute beyond context.object, np.asarray, list / tuple / dict, displays, comprehensions. *)')
+    out.append('From Coq Require Import List Bool String.\nImport ListNotations.\nLocal Open Scope string_scope.\n')
+    out.append('Record mkey := mkMKey { mk_key : string; mk_sources : list string; mk_lossy : list string }.')
+    out.append('Record mspath := mkMSPath { msp_dynamic : bool; msp_keys : list mkey }.')
+    out.append('Record msaver := mkMS { ms_cls : string; ms_paths : list mspath }.')
+    out.append('Definition method_savers : list msaver := [')
+    rows = []
+    for r in M['savers']:
+        ps = []
+        for p in r['paths']:
+            ks = '; '.join('mkMKey %s %s %s' % (cs(k), sl(p['chains'][k][0]), sl(p['chains'][k][1])) for k in p['keys'])
+            ps.append('mkMSPath %s [%s]' % (b(p['dynamic']), ks))
+        rows.append('  mkMS %s [%s]' % (cs(r['cls']), ';\n    '.join(ps)))
+    out.append(';\n'.join(rows))
+    out.append('].\n')
+    out.append('Record mread := mkMRead { mr_key : string; mr_steps : list string }.')
+    out.append('Record mloader := mkML { ml_cls : string; ml_dynamic : bool; ml_reads : list mread }.')
+    out.append('Definition method_loaders : list mloader := [')
+    rows = []
+    for r in M['loaders']:
+        rows.append('  mkML %s %s [%s]' % (cs(r['cls']), b(r['dynamic']), '; '.join('mkMRead %s %s' % (cs(k), sl(v)) for k, v in r['reads'].items())))
+    out.append(';\n'.join(rows))
+    out.append('].\n')
+    out.append('(* (provider of __gluestate__, provider of __setgluestate__) for the concrete classes of the class table *)')
+    out.append('Definition method_pairs : list (string * string) := [')
+    out.append(';\n'.join('  (%s, %s)' % (cs(a), cs(bb)) for a, bb in M['pairs']))
+    out.append('].')
+    return '\n'.join(out) + '\n'
+
+
+def write_if_changed(out_path, text):
+    tmp = out_path + '.tmp'
+    with open(tmp, 'w') as f:
+        f.write(text)
+    if not os.path.exists(out_path) or open(out_path).read() != text:
+        os.replace(tmp, out_path)
+    else:
+        os.remove(tmp)
+
+
 # ------------------------------------------------------------------ collect / render
 def collect(repo=None):
     T = gen_tables.collect(repo)
@@ -695,7 +1102,7 @@ def collect(repo=None):
                 N(nm)
     for w in T['write_only']:
         N(w)
-    return {'savers': savers, 'loaders': loaders, 'names': names, 'write_only': T['write_only'], 'repo': T['repo']}
+    return {'savers': savers, 'loaders': loaders, 'names': names, 'write_only': T['write_only'], 'repo': T['repo'], 'methods': collect_methods(T)}
 
 
 def zl(xs):
@@ -754,6 +1161,8 @@ def generate(out_path):
         os.replace(tmp, out_path)
     else:
         os.remove(tmp)
+    # the method pairs go to their own file: Gen_codecs.v keeps its text
+    write_if_changed(os.path.join(os.path.dirname(out_path), 'Gen_methodcodecs.v'), render_methods(C['methods']))
     return C
 
 
@@ -766,3 +1175,5 @@ if __name__ == '__main__':
         sys.exit(3)
     print('ok %s: %d names, %d saver rows (%d paths), %d loader rows (%d paths)' % (
         out, len(C['names']), len(C['savers']), sum(len(r['paths']) for r in C['savers']), len(C['loaders']), sum(len(r['paths']) for r in C['loaders'])))
+    print('ok Gen_methodcodecs.v: %d __gluestate__ providers, %d __setgluestate__ providers, %d pairs' % (
+        len(C['methods']['savers']), len(C['methods']['loaders']), len(C['methods']['pairs'])))
